@@ -512,7 +512,7 @@ VF_SECTION(schedules, 16, 16, 300) {
     std::string cd = vf::fmt("%s :: child script [ %s], check=%d, timeout/deadline=%llu us(virtual); child may run {0,1,2,all} steps ahead at each parent waitpid/poll/read/write, <=%d such deviations", sc.name.c_str(), describe_script(sc.script).c_str(), (int)sc.check, (unsigned long long)sc.timeout, bound);
     if (r.wants_desc()) r.desc(cd);
     Outcome last;
-    auto st = vfe::explore(g_env, [&] { last = run_scenario(sc, vchild); return last.fail; }, bound, r.thorough() ? 400000 : 60000);
+    auto st = vfe::explore(g_env, [&] { r.beat(); last = run_scenario(sc, vchild); return last.fail; }, bound, r.thorough() ? 400000 : 60000);
     r.states += st.executions;
     r.transitions += st.choice_points;
     r.counters["executions"] += st.executions;
